@@ -24,6 +24,7 @@ Record cobs := {
   b_pred_err : bool;            (* the predicate was invoked during the call and returned an error *)
   b_final : option (option bytes); (* None: unchanged (compared by the harness with its copy); Some x: the value under the format's name re-read after later Process calls on other events (same
                                    and other goroutines) *)
+  b_still : bool;               (* when re-read later: payload, type, time and every OTHER entry of the table are unchanged *)
   b_later : N }.                (* number of later Process calls after which it was first seen changed; 0: never *)           (* Go's time parser reads the stored document's time member back as the event's instant
                                    (true when nothing is stored) *)
 Record kcase := {
@@ -220,12 +221,14 @@ Definition ce_chk_final (c : kcase) : list kind :=
   if obeqb (tget (ce_key c) (b_table o)) (ce_final_of c) then []
   else KStoredMutated :: (if negb (b_err o) then doc_checks (k_cfg c) c (b_calls o) true (ce_final_of c) else []).
 
+Definition ce_chk_still (o : cobs) : list kind := if b_still o then [] else [KStoredMutated].
+
 Definition run_ce (c : kcase) : list kind :=
   let '(e', oc, calls) := model_ce c in
   let o := k_obs c in
   ce_chk_model c ++ ce_chk_err oc o ++ ce_chk_out oc o ++ ce_chk_doc (ce_key c) (ce_table e') o ++
   ce_chk_other (ce_key c) (ce_table e') o ++ ce_chk_frame o ++ ce_chk_calls calls o ++
-  ce_chk_stored c ++ ce_chk_errstored c ++ ce_chk_final c.
+  ce_chk_stored c ++ ce_chk_errstored c ++ ce_chk_final c ++ ce_chk_still o.
 
 Definition set_cfg (c : kcase) (k : kcfg) : kcase :=
   {| k_cfg := k; k_ctx_done := k_ctx_done c; k_evnil := k_evnil c; k_type := k_type c; k_time := k_time c; k_payload := k_payload c; k_pre := k_pre c;
